@@ -217,7 +217,7 @@ class SeededBinarySegmentation(ChangeDetector):
             self.max_interval_length,
             self.growth_factor,
         )
-        return np.quantile(scores, 1 - self.level)
+        return np.quantile(scores, 1 - self.level, method="higher")
 
     @staticmethod
     def get_default_threshold(n: int, p: int) -> float:
